@@ -539,8 +539,16 @@ func (c12) Gen(rng *rand.Rand, tier string, idx int) Case {
 				continue
 			}
 			stat["sql"] = true
-			op := append([]string{"sql"}, c12GenSQLPred(rng, row)...)
+			pred := c12GenSQLPred(rng, row)
+			op := append([]string{"sql"}, pred...)
 			c.Ops = append(c.Ops, append(append(op, ";"), rowToks...))
+			if rng.Intn(2) == 0 {
+				// the same predicate over lag(col): the analytic value is injected under a placeholder and must be compared as
+				// the column itself would be (integers beyond 2^53 exactly)
+				stat["sql-over-analytic-value"] = true
+				op := append([]string{"sqllag"}, pred...)
+				c.Ops = append(c.Ops, append(append(op, ";"), rowToks...))
+			}
 		}
 	}
 	for s := range stat {
@@ -558,6 +566,31 @@ func c12Split(toks []string) ([]string, []string) {
 		}
 	}
 	return toks, nil
+}
+
+// c12LagWrap: every column of the predicate is written lag(col) (op sqllag)
+var c12LagWrap bool
+
+// c12WhereLag: the predicate over lag(col) decides on the row BEFORE the one it is asked about — the first EmitSync
+// carries the values, the second (a row with nothing but an id) is the one whose acceptance is observed.
+func c12WhereLag(cond string, row map[string]interface{}) string {
+	s := streamsql.New(streamsql.WithDiscardLog())
+	defer s.Stop()
+	if err := s.Execute("SELECT id FROM stream WHERE " + cond); err != nil {
+		return "err"
+	}
+	cp := map[string]interface{}{"id": 1}
+	for k, v := range row {
+		cp[k] = v
+	}
+	if _, err := s.EmitSync(cp); err != nil {
+		return "err"
+	}
+	out, err := s.EmitSync(map[string]interface{}{"id": 2})
+	if err != nil {
+		return "err"
+	}
+	return btok(out != nil)
 }
 
 // SQL text of an AST (tokens consumed from the front).
@@ -588,7 +621,11 @@ func c12SQL(toks []string) (string, []string) {
 		default:
 			lit = lit[2:]
 		}
-		return unhx(toks[1]) + " " + text + " " + lit, toks[4:]
+		col := unhx(toks[1])
+		if c12LagWrap {
+			col = "lag(" + col + ")"
+		}
+		return col + " " + text + " " + lit, toks[4:]
 	case "and", "or":
 		a, r := c12SQL(toks[1:])
 		b, r2 := c12SQL(r)
@@ -697,6 +734,13 @@ func (c12) Exec(c Case) [][][]string {
 			a, again := c12Where(sql, row)
 			b, _ := c12Where("("+sql+")", row)
 			obs = append(obs, []string{"acc", a}, []string{"acctwin", b}, []string{"again", again})
+		case "sqllag":
+			astToks, rowToks := c12Split(op[1:])
+			row := c12DecodeRow(rowToks)
+			c12LagWrap = true
+			sql, _ := c12SQL(astToks)
+			c12LagWrap = false
+			obs = append(obs, []string{"acc", c12WhereLag(sql, row)}, []string{"acctwin", c12WhereLag("("+sql+")", row)})
 		default:
 			obs = append(obs, []string{"bad-op"})
 		}
